@@ -21,9 +21,12 @@ EXPLANATION = (
     "A value that compares equal to a cached constant key but has another Python type (True / 1, Fraction(1) / 1, "
     "1+0j / 1) is treated as on a fresh manager (R7).  No class-level mutable container of a per-environment "
     "class is mutated through self (R8).  Rebuilding a formula from its structure - through the constructors, "
-    "through IdentityDagWalker, through normalize into the same and into another manager, through the documented "
-    "spellings of constants - returns the very same object, resp. a structurally identical copy that shares no "
-    "object with the source (R9).")
+    "through IdentityDagWalker, through normalize into its own manager, through the documented spellings of "
+    "constants - returns the very same object (R9).  Three real environments in one interpretation: formulas built in "
+    "two source environments by the same number of constructions (so that corresponding nodes carry the same ids "
+    "although they differ) are copied by FormulaManager.normalize into a third; each copy is structurally "
+    "identical to its source, consists of nodes registered in the target manager only, and copying the first "
+    "formula again returns the first copy (R6).")
 NOT_DECIDED = ["structures outside the menus (the rule decides the menu: one representative per way two structures can differ)",
                "absence of collisions between distinct Python payloads that compare equal beyond the impostor values of R7"]
 
@@ -73,6 +76,11 @@ def run(ctx):
             else:
                 rs.ok({"FNode": "no %s in its class hierarchy" % bad})
         ctx.floor(rs, 2)
+
+    if ctx.want("R6"):
+        rs = ctx.rule("R6", "real managers: a formula copied into another environment is structurally identical, shares no object with its source, and copies from two sources whose node ids coincide do not mix")
+        from . import mgr_deep
+        mgr_deep.report(ctx, rs, mgr_deep.copy_results(), "pysmt/formula.py", 6)
 
     if ctx.want("R7"):
         rs = ctx.rule("R7", "real manager: a value that equals a cached constant key but has another Python type is treated as on a fresh manager")
